@@ -20,6 +20,8 @@ def traceOf (file : Bytes) (steps : List MicroStep) : List Bytes :=
         if nxt == cur then go cur rest else nxt :: go nxt rest
   go file steps
 
+def splitPath (s : String) : List String := (s.splitOn "/").filter (· ≠ "")
+
 def showTrace (t : List Bytes) : String := ",".intercalate (t.map showHex)
 
 def stepOnDisk (st : St) (cmd : String) (h : Nat) (args : List String) : St × String :=
@@ -30,20 +32,37 @@ def stepOnDisk (st : St) (cmd : String) (h : Nat) (args : List String) : St × S
       | some (.error e) => (st, facets [("ret", showErr e)])
       | some (.ok (est, f32, k, m)) =>
           match mkHashing args k, OnDisk.create est f32 k m with
-          | some hg, .ok o => (st.put h (.ondisk o hg), facets (("ret", "ok") :: odObs o))
+          | some hg, .ok o =>
+              let st := st.put h (.ondisk o hg)
+              -- `path=` (an absolute path, as resolved by the constructor) registers the file
+              let st := match kv args "path" with
+                | some p => { st with fs := (splitPath p, h) :: st.fs.filter (·.1 != splitPath p) }
+                | none => st
+              (st, facets (("ret", "ok") :: odObs o))
           | some _, .error e => (st, facets [("ret", showErr e)])
           | none, _ => (st, "bad-op")
   | "od.reopen" =>
-      -- `od.reopen r src strat=…`
+      -- `od.reopen r src strat=… [cwd=<abs> arg=<path as given>]`: with cwd/arg the file is found through
+      -- the model's path resolution instead of being taken from `src`
       match args with
       | src :: rest =>
-          match src.toNat?.bind st.get with
+          let target : Option Nat :=
+            match kv rest "cwd", kv rest "arg" with
+            | some cwd, some arg => lookupPath st.fs (resolvePath (splitPath cwd) (arg.startsWith "/") (splitPath arg))
+            | _, _ => src.toNat?
+          match target with
+          | none => (st, facets [("ret", showErr .initError)])
+          | some tgt =>
+          match st.get tgt with
           | some (.ondisk x _) =>
               match OnDisk.reopen geomFloat x.file with
               | .error e => (st, facets [("ret", showErr e)])
               | .ok o =>
                   match mkHashing rest o.k with
-                  | some hg => (st.put h (.ondisk o hg), facets (("ret", "ok") :: odObs o))
+                  | some hg =>
+                      let st := st.put h (.ondisk o hg)
+                      let st := { st with fs := st.fs.map fun (p, owner) => if owner == tgt then (p, h) else (p, owner) }
+                      (st, facets (("ret", "ok") :: odObs o))
                   | none => (st, "bad-op")
           | _ => (st, "bad-handle")
       | _ => (st, "bad-op")
